@@ -324,7 +324,8 @@ SHAPES = ["dyn-tail-optional", "nested-dyn-first", "nested-dyn-middle", "block-a
           "union-arm-struct-with-optional", "optional-wide-and-enum", "ext-arrays-split", "greedy-of-dynamic-structs",
           "limited-of-struct-with-optional", "nested-dyn-then-optional", "array-of-unions", "union-in-union",
           "typedef-enum-arrays", "nested-limited-composites", "shared-sizer-bytes-last", "dyn-struct-embedded-twice",
-          "union-wide-arm-low-align", "optional-union", "typedef-chain-sizer", "array-of-big-elements"]
+          "union-wide-arm-low-align", "optional-union", "typedef-chain-sizer", "array-of-big-elements",
+          "greedy-of-awkward-composites"]
 
 
 def _gen_shape(tape, env):
@@ -336,13 +337,14 @@ def _gen_shape(tape, env):
     cnt = tape.pick(["u8", "u16", "u32"])
     needs = {"dyn-tail-optional": ["arr_dynamic"], "block-align-decreasing": ["arr_dynamic"],
              "greedy-of-dynamic-structs": ["arr_dynamic", "arr_greedy"], "shared-sizer-bytes-last": ["bytes"],
-             "dyn-struct-embedded-twice": ["arr_dynamic"], "array-of-big-elements": ["arr_dynamic"]}
+             "dyn-struct-embedded-twice": ["arr_dynamic"], "array-of-big-elements": ["arr_dynamic"],
+             "greedy-of-awkward-composites": ["arr_greedy"]}
     forbid = env.feats.get("_forbid", ())
     allowed = [x for x in SHAPES if not any(n in forbid for n in needs.get(x, ()))]
     if env.cpp:     # the C++ full generator refuses arrays sharing a sizer and sizers of a typedef'd type
         allowed = [x for x in allowed if x not in ("shared-sizer-bytes-last", "typedef-chain-sizer")]
     # the C++ peer sees few schemas: there the shapes that only it can judge (allocation by element size) weigh more
-    weights = [3 if (env.cpp and x == "array-of-big-elements") else 1 for x in allowed]
+    weights = [3 if (env.cpp and x in ("array-of-big-elements", "greedy-of-awkward-composites")) else 1 for x in allowed]
     k = allowed[tape.weighted(weights)]
     if k == "dyn-tail-optional":
         _add_struct(env, [_m("f1", small, "dynamic"), _m("f2", small2, opt=True)], DYNAMIC)
@@ -454,6 +456,20 @@ def _gen_shape(tape, env):
         # if it divides by the element size
         big = _add_struct(env, [_m("f1", "u8", "fixed", 3000 + 1000 * tape.draw(3)), _m("f2", small)], FIXED)
         _add_struct(env, [_m("f1", big, "dynamic"), _m("f2", "u8")], DYNAMIC)
+    elif k == "greedy-of-awkward-composites":
+        # fixed-size elements whose in-memory object size has nothing to do with their wire size
+        which = tape.draw(3)
+        if which == 0:
+            el = env.fresh("U")
+            env.defs.append({"k": "union", "name": el, "arms": [{"name": "a1", "type": "u32", "disc": 1},
+                                                                 {"name": "a2", "type": tape.pick(["u32", "u16", "i32"]), "disc": 2}]})
+            env.types[el] = {"cat": "union", "stiff": FIXED}
+            env.order.append(el)
+        elif which == 1:
+            el = _add_struct(env, [_m("f1", small, "limited", 2 + tape.draw(2)), _m("f2", "u8")], FIXED)
+        else:
+            el = _add_struct(env, [_m("f1", "u8"), _m("f2", small, opt=True)], FIXED)
+        _add_struct(env, [_m("f1", small2), _m("f2", el, "greedy")], UNLIMITED)
     elif k == "limited-of-struct-with-optional":
         item = _add_struct(env, [_m("f1", small, opt=True), _m("f2", "u8")], FIXED)
         _add_struct(env, [_m("f1", "u8"), _m("f2", item, "limited", 2), _m("f3", item, "fixed", 2), _m("f4", small)], FIXED)
